@@ -47,6 +47,22 @@ class ConfigOption(Generic[T]):
         self.value = self.valueType()(string)
 
 class BooleanOption(ConfigOption[bool]):
+    TRUE_STRINGS = ('yes', 'true', 'on', '1')
+    FALSE_STRINGS = ('no', 'false', 'off', '0')
+
+    def setFromString(self, string: str):
+        """
+        sets the value from the string found in a configuration file, e.g.
+        `yes`/`no`, `true`/`false`, `on`/`off` or `1`/`0` (in any case).
+        """
+        word = string.strip().lower()
+        if word in self.TRUE_STRINGS:
+            self.value = True
+        elif word in self.FALSE_STRINGS:
+            self.value = False
+        else:
+            raise ValueError("Not a boolean: {}".format(string))
+
     def registerArgparse(self, group: ArgumentGroup):
         enables = [x for x in self.options if x[0] != "!"]
         disables = [x[1:] for x in self.options if x[0] == "!"]
